@@ -390,10 +390,11 @@ const char * etcLdSoPreload_findNonCommentLineContainingString (const char * con
 
     while ((foundStringPos = strstr(contentPos, searchString)) != NULL) {
 
-        // Search in reverse for a newline character, or start of the buffer
+        // Search in reverse for a newline character, or start of the buffer (not merely of the part
+        // that is still to be searched: a comment line may contain the search string more than once)
         for (
             lineStartPtr = foundStringPos;
-            (lineStartPtr > contentPos) && (*lineStartPtr != '\n');
+            (lineStartPtr > content) && (*lineStartPtr != '\n');
             lineStartPtr--
         );
 
